@@ -78,14 +78,17 @@ structure Quirks where
   orderByKeepsErr : Bool
   filterNonBoolDrops : Bool
   existsSwallowsErr : Bool
+  /-- the guard skips `take_failure` on the pull that finds its operator exhausted -/
+  guardDropsFailureAtEnd : Bool
   deriving DecidableEq, Repr
 
-def Quirks.repaired : Quirks := ⟨false, false, false, false, false, false⟩
-def Quirks.pinned : Quirks := ⟨true, true, true, true, true, true⟩
+def Quirks.repaired : Quirks := ⟨false, false, false, false, false, false, false⟩
+def Quirks.pinned : Quirks := ⟨true, true, true, true, true, true, false⟩
 /-- the working tree, as read by tools/extract.py -/
 def Quirks.current : Quirks :=
   ⟨Generated.distinctDropsErr, Generated.unionDropsErr, Generated.skipDropsErr,
-   Generated.orderByKeepsErr, Generated.filterNonBoolDrops, Generated.existsSwallowsErr⟩
+   Generated.orderByKeepsErr, Generated.filterNonBoolDrops, Generated.existsSwallowsErr,
+   Generated.guardDropsFailureAtEnd⟩
 
 /-- where in the plan tree a check sits: every execution of every node has its own oracle -/
 inductive Site where
@@ -117,6 +120,10 @@ structure Sem (χ ρ ν ε κ α : Type) where
       first argument = the parameters (outer row of a correlated subquery), second = the row.
       The `coll` argument is the collection-size check used by `Function(range)`. -/
   eval : (String → Nat → Option ε) → χ → ρ → ρ → Except ε ν
+  /-- evaluating the expression PARKS a failure (`Params::record_failure`): an `EXISTS { subquery }`
+      inside it failed; the evaluator goes on with `null` in its place (that value is what `eval`
+      answers) and the runtime guard of the enclosing node reports the parked error -/
+  park : (String → Nat → Option ε) → χ → ρ → ρ → Option ε
   truth : ν → Truth
   listView : ν → ListView ν
   /-- `Row::default()` -/
@@ -140,6 +147,8 @@ structure Sem (χ ρ ν ε κ α : Type) where
   /-- the finalisation closure of `execute_aggregate` for one group (rows in arrival order);
       its `check_collection_size` sites use the first argument -/
   aggFinal : (String → Nat → Option ε) → List String → List (α × String) → ρ → List ρ → Except ε ρ
+  /-- a failure parked while the finalisation closure evaluated the aggregate arguments of one group -/
+  aggPark : (String → Nat → Option ε) → List (α × String) → ρ → List ρ → Option ε
   /-- the error `FilterIter` raises for a predicate that is neither boolean nor null (repaired tree) -/
   nonBool : ε
 
@@ -170,8 +179,55 @@ def Trans.need {σ ε ρ : Type} (t : Trans σ ε ρ) : σ → Stream ε ρ → 
     else if d ≤ (t.step st x).2.length then 1
     else 1 + t.need (t.step st x).1 xs (d - (t.step st x).2.length)
 
+/-- `a` if it is there, else `b` (`record_failure` keeps the FIRST error) -/
+def firstSome {β : Type} : Option β → Option β → Option β
+  | some a, _ => some a
+  | none, b => b
+
+/-- an operator together with the failures its expression evaluation parks
+    (`Params::record_failure`) and the `take_failure` of the guard that wraps it
+    (runtime_limits.rs RuntimeGuardIter::next: `let item = self.inner.next(); take_failure()?`):
+    `parks st x` = processing the input item `x` parks a failure, `flushParks st` = the work done
+    once the input is exhausted parks one.  A parked failure is pending until the operator's
+    `next()` returns: the item it returns is replaced by the error; if it returns `None` the error is
+    reported in its place (`dropAtEnd` = the guard skips that check on the exhausting pull). -/
+def parkT {σ ε ρ : Type} (t : Trans σ ε ρ) (parks : σ → Except ε ρ → Option ε)
+    (flushParks : σ → Option ε) (dropAtEnd : Bool) : Trans (σ × Option ε) ε ρ where
+  done s := t.done s.1
+  step s x :=
+    match firstSome s.2 (parks s.1 x) with
+    | none => (((t.step s.1 x).1, none), (t.step s.1 x).2)
+    | some e =>
+      match (t.step s.1 x).2 with
+      | [] => (((t.step s.1 x).1, some e), [])
+      | _ :: rest => (((t.step s.1 x).1, none), .error e :: rest)
+  flush s :=
+    match firstSome s.2 (flushParks s.1) with
+    | none => t.flush s.1
+    | some e =>
+      match t.flush s.1 with
+      | [] => if dropAtEnd then [] else [.error e]
+      | _ :: rest => .error e :: rest
+
+/-- the failures parked among the input items pulled (and the final work done) to answer `d` calls -/
+def parkEvents {σ ε ρ : Type} (t : Trans σ ε ρ) (parks : σ → Except ε ρ → Option ε)
+    (flushParks : σ → Option ε) : σ → Stream ε ρ → Nat → List ε
+  | st, [], d => if d = 0 ∨ t.done st = true then [] else (flushParks st).toList
+  | st, x :: xs, d =>
+    if d = 0 ∨ t.done st = true then []
+    else (parks st x).toList ++
+      (if d ≤ (t.step st x).2.length then [] else parkEvents t parks flushParks (t.step st x).1 xs (d - (t.step st x).2.length))
+
 section ops
 variable {χ ρ ν ε κ α : Type} [DecidableEq κ]
+
+/-- the first failure parked by evaluating the expressions `es` on a row -/
+def rowParks (S : Sem χ ρ ν ε κ α) (L : LimEnv ε) (env : ρ) (es : List χ) {σ : Type} :
+    σ → Except ε ρ → Option ε
+  | _, .ok r => es.findSome? (fun e => S.park L.coll e env r)
+  | _, .error _ => none
+
+def noFlushParks {σ : Type} : σ → Option ε := fun _ => none
 
 /-! ### RuntimeGuardIter (runtime_limits.rs) — wraps the iterator of EVERY plan node -/
 
@@ -215,14 +271,19 @@ def guardNeed (L : LimEnv ε) (site : Site) (s : Stream ε ρ) (d : Nat) : Nat :
 /-- one input row of `FilterIter::next`: `ensure…?`, evaluate, keep on `Bool(true)` -/
 def filterRow (S : Sem χ ρ ν ε κ α) (Q : Quirks) (L : LimEnv ε) (env : ρ) (pred : χ) (r : ρ) :
     Stream ε ρ :=
-  match S.eval L.coll pred env r with
-  | .error e => [.error e]
-  | .ok v =>
-    match S.truth v with
-    | .tt => [.ok r]
-    | .ff => []
-    | .null => []
-    | .other => if Q.filterNonBoolDrops then [] else [.error S.nonBool]
+  -- a failure parked while the predicate was checked / evaluated wins: `FilterIter` takes it right
+  -- after the evaluation, and if `ensure…` failed before, the guard replaces that error by it
+  match S.park L.coll pred env r with
+  | some e => [.error e]
+  | none =>
+    match S.eval L.coll pred env r with
+    | .error e => [.error e]
+    | .ok v =>
+      match S.truth v with
+      | .tt => [.ok r]
+      | .ff => []
+      | .null => []
+      | .other => if Q.filterNonBoolDrops then [] else [.error S.nonBool]
 
 /-- stateless per-row operator: an `Err` input item is returned as it is -/
 def mapT (f : ρ → Stream ε ρ) : Trans Unit ε ρ where
@@ -426,6 +487,17 @@ def aggregateT (S : Sem χ ρ ν ε κ α) (L : LimEnv ε) (site : Site) (env : 
             | none => (⟨acc', st.n + 1, false⟩, [])
   flush st := aggFinish S L site env groupBy aggs st.acc
 
+/-- a failure parked while the sort keys of the collected rows are evaluated (all rows, in input
+    order, whatever their number) -/
+def orderByFlushParks (S : Sem χ ρ ν ε κ α) (L : LimEnv ε) (env : ρ) (keys : List (χ × Bool)) :
+    BlockSt (Stream ε ρ) → Option ε :=
+  fun st => st.acc.reverse.findSome? (fun it => rowParks S L env (keys.map (·.1)) () it)
+
+/-- a failure parked while the groups are finalised -/
+def aggregateFlushParks (S : Sem χ ρ ν ε κ α) (L : LimEnv ε) (env : ρ) (aggs : List (α × String)) :
+    BlockSt (List (κ × List ρ)) → Option ε :=
+  fun st => st.acc.findSome? (fun g => S.aggPark L.coll aggs env g.2)
+
 end ops
 
 /-! ## plans -/
@@ -490,11 +562,13 @@ def runL (S : Sem χ ρ ν ε κ α) (Q : Quirks) (L : LimEnv ε) : Site → ρ 
     guard L site ((flatMapT (fun k r => existsRow Q r (runL S Q L (.exec k site) (S.bind env r) sub))).run 0
       (runL S Q L (.left site) env inp))
   | site, env, .project projs inp =>
-    guard L site ((projectT S L env projs).run () (runL S Q L (.left site) env inp))
+    guard L site ((parkT (projectT S L env projs) (rowParks S L env (projs.map (·.2))) noFlushParks
+      Q.guardDropsFailureAtEnd).run ((), none) (runL S Q L (.left site) env inp))
   | site, env, .distinct inp =>
     guard L site ((distinctT S Q.distinctDropsErr).run [] (runL S Q L (.left site) env inp))
   | site, env, .unwind e alias inp =>
-    guard L site ((flatMapT (unwindRow S L site env e alias)).run 0 (runL S Q L (.left site) env inp))
+    guard L site ((parkT (flatMapT (unwindRow S L site env e alias)) (rowParks S L env [e]) noFlushParks
+      Q.guardDropsFailureAtEnd).run (0, none) (runL S Q L (.left site) env inp))
   | site, env, .expand f inp =>
     guard L site ((flatMapT (fun _ r => f r)).run 0 (runL S Q L (.left site) env inp))
   | site, env, .skip n inp =>
@@ -506,9 +580,11 @@ def runL (S : Sem χ ρ ν ε κ α) (Q : Quirks) (L : LimEnv ε) : Site → ρ 
       | .error e => [.error e]
       | .ok k => limitT.run k (runL S Q L (.left site) env inp))
   | site, env, .orderBy keys inp =>
-    guard L site ((orderByT S Q L site env keys).run ⟨[], 0, false⟩ (runL S Q L (.left site) env inp))
+    guard L site ((parkT (orderByT S Q L site env keys) (fun _ _ => none) (orderByFlushParks S L env keys)
+      Q.guardDropsFailureAtEnd).run (⟨[], 0, false⟩, none) (runL S Q L (.left site) env inp))
   | site, env, .aggregate groupBy aggs inp =>
-    guard L site ((aggregateT S L site env groupBy aggs).run ⟨[], 0, false⟩ (runL S Q L (.left site) env inp))
+    guard L site ((parkT (aggregateT S L site env groupBy aggs) (fun _ _ => none) (aggregateFlushParks S L env aggs)
+      Q.guardDropsFailureAtEnd).run (⟨[], 0, false⟩, none) (runL S Q L (.left site) env inp))
   | site, env, .union all l r =>
     guard L site (
       if all then runL S Q L (.left site) env l ++ runL S Q L (.right site) env r
